@@ -25,6 +25,15 @@ def Axes.norm (ndim : Nat) : Axes → Option (List Nat)
   | .one a => (normAxis ndim a).map ([·])
   | .many as => normAxes ndim as
 
+/-- reduction axes of `np.sum` / `np.max` / `np.min` (ufunc reductions): as `Axes.norm`, except
+    that a 0-d array accepts the *integer* axes `0` and `-1` — nothing is reduced.  Every other
+    integer and every non-empty tuple (`(0,)`, `(-1,)`) is an AxisError on a 0-d array; `np.mean`
+    validates with `Axes.norm` throughout (it rejects every integer axis on a 0-d array). -/
+def Axes.normRed (ndim : Nat) (ax : Axes) : Option (List Nat) :=
+  match ndim, ax with
+  | 0, .one a => if a = 0 ∨ a = -1 then some [] else none
+  | _, _ => ax.norm ndim
+
 /-- result shape of a reduction -/
 def reduceShape (s : Shape) (axes : List Nat) (keep : Bool) : Shape :=
   if keep then setAxes s axes 1 else dropAxes s axes
@@ -38,7 +47,7 @@ variable [Zero α] [Add α]
 
 /-- `np.sum(a, axis, keepdims)` -/
 def sum (x : NDArray α) (ax : Axes) (keep : Bool) : Option (NDArray α) := do
-  let axes ← ax.norm x.shape.length
+  let axes ← ax.normRed x.shape.length
   pure (scatterAdd (reduceShape x.shape axes keep) x.shape (reduceIdx axes keep) x)
 
 /-- broadcast a reduced array back over the reduced axes (`zeros(a_shape) + expand_dims(g)`) -/
